@@ -19,7 +19,9 @@ From Coq Require Import ZArith Bool List Lia.
 Import ListNotations.
 
 Inductive cstate := NC | NS | SEL.
-Inductive event := EvTCPUp | EvSelectAccepted | EvSelectLost | EvDisconnect | EvClose | EvT7.
+Inductive event :=
+| EvTCPUp | EvSelectAccepted | EvSelectLost | EvDisconnect | EvClose | EvT7
+| EvUpC | EvSelAccC | EvSelLostC.   (* commit echoes: evTCPUpCommitted / evSelectAcceptedCommitted / evSelectLostCommitted *)
 
 Scheme Equality for cstate.
 Scheme Equality for event.
@@ -27,17 +29,22 @@ Scheme Equality for event.
 (** hsms.transition, hand-written twin (bridged to the generated one). *)
 Definition transition (cur : cstate) (ev : event) : cstate * bool :=
   match ev, cur with
-  | EvTCPUp, (NC | NS) => (NS, true)
-  | EvSelectAccepted, (NS | SEL) => (SEL, true)
-  | EvSelectLost, (SEL | NS) => (NS, true)
+  | (EvTCPUp | EvUpC), (NC | NS) => (NS, true)
+  | (EvSelectAccepted | EvSelAccC), (NS | SEL) => (SEL, true)
+  | (EvSelectLost | EvSelLostC), (SEL | NS) => (NS, true)
   | EvDisconnect, (SEL | NS) => (NC, true)
   | EvT7, NS => (NC, true)
   | EvClose, _ => (NC, true)
   | _, _ => (cur, false)
   end.
 
+(** The echo of a synchronous commit: enqueued AFTER the commit's CAS changed the state. The raw
+    EvTCPUp / EvSelectAccepted / EvSelectLost remain in the table (unit tests inject them) but no
+    production path — hence no action of this model — enqueues them. *)
 Definition is_echo (ev : event) : bool :=
-  match ev with EvTCPUp | EvSelectAccepted | EvSelectLost => true | _ => false end.
+  match ev with EvUpC | EvSelAccC | EvSelLostC => true | _ => false end.
+
+Definition is_upc (ev : event) : bool := match ev with EvUpC => true | _ => false end.
 
 (** Events that enter through [inject] from outside the supervisor (TCPDown, T7Expired, requestClose). *)
 Inductive inj := IDisconnect | IT7 | IClose.
@@ -103,6 +110,17 @@ Definition step_finish (s : sup) (ev : event) (cur : cstate) : sup * list obs :=
   let s0 := {| st := st s; clbit := clbit s; queue := queue s; pc := None; lastr := lastr s;
                closed := closed s; nbuf := nbuf s; dropped := dropped s |} in
   if event_beq ev EvSelectLost && cstate_beq cur SEL then (s0, [])
+  else if (event_beq ev EvDisconnect || event_beq ev EvT7) && existsb is_upc (queue s) then
+    (* injected before a TCP-up commit whose echo is still queued behind it: a previous generation's *)
+    (s0, [])
+  else if is_echo ev then
+    (* a commit echo never stores; it reports the state it announces iff that is still current *)
+    let '(next, ok) := transition cur ev in
+    if ok && cstate_beq next cur && negb (cstate_beq next (lastr s)) then
+      let '(b', o2, d) := fire (nbuf s) (lastr s) next in
+      ({| st := st s; clbit := clbit s; queue := queue s; pc := None; lastr := next;
+          closed := closed s; nbuf := b'; dropped := dropped s + d |}, o2)
+    else (s0, [])
   else
     let '(next, ok) := transition cur ev in
     (* the transition part; [None] = step returned early (T7 CAS lost the tie) *)
@@ -137,9 +155,9 @@ Definition step_finish (s : sup) (ev : event) (cur : cstate) : sup * list obs :=
 
 Definition exec (s : sup) (a : action) : sup * list obs :=
   match a with
-  | CommitConnected => commit NC NS EvTCPUp s
-  | CommitSelected => commit NS SEL EvSelectAccepted s
-  | CommitSelectLost => commit SEL NS EvSelectLost s
+  | CommitConnected => commit NC NS EvUpC s
+  | CommitSelected => commit NS SEL EvSelAccC s
+  | CommitSelectLost => commit SEL NS EvSelLostC s
   | Inject i =>
       ({| st := st s; clbit := clbit s; queue := queue s ++ [inj_event i]; pc := pc s; lastr := lastr s;
           closed := closed s; nbuf := nbuf s; dropped := dropped s |}, [])
@@ -225,7 +243,7 @@ Fixpoint mon_run (m : mon) (l : list obs) : option mon :=
 Definition ok_C05 (l : list obs) : bool :=
   match mon_run mon0 l with Some _ => true | None => false end.
 
-(** echo processing never changes State() — REFUTED on the current code (see Properties/C05.v) *)
+(** processing a commit echo never changes State() (no replay, no undo) *)
 Fixpoint ok_no_replay (l : list obs) : bool :=
   match l with
   | [] => true
